@@ -147,6 +147,23 @@ def gen(ctx, n):
                 lst(['B'] * nn), cls='msm:expect')
         ctx.add('rs.precomp', lst(['B'] * min(nn, 3)), lst(['c' + to32(rng.randrange(L)).hex() for _ in range(min(nn, 3))]), scs,
                 lst(['B'] * nn), cls='msm:expect')
+    # degenerate scalars through the variable-time entry points verification is built on: both double-base scalars zero
+    # at once, every multiscalar scalar zero (all recodings empty), under whatever backend the dispatcher picks
+    zero, one, lm1 = ('c' + to32(v).hex() for v in (0, 1, L - 1))
+    for a_ in (zero, one, lm1):
+        for b_ in (zero, one, lm1):
+            for pt_ in ('B', 'I', to32(1).hex()):
+                ctx.add('ed.dsm', a_, pt_, b_, cls='msm:expect')
+            ctx.add('rs.dsm', a_, 'B', b_, cls='msm:expect')
+    for nn in (1, 2, 3, 190, 800):
+        for sv in (zero, one):
+            scs = lst([sv] * nn)
+            for op_ in ('ed.vmsm', 'ed.omsm', 'ed.msm') if nn <= 190 else ('ed.vmsm', 'ed.omsm'):
+                ctx.add(op_, scs, lst(['B'] * nn), cls='msm:expect')
+        if nn <= 3:
+            ctx.add('ed.precomp', lst(['B'] * nn), lst([zero] * nn), lst([zero] * nn), lst(['B'] * nn), cls='msm:expect')
+            ctx.add('ed.precomp', lst(['B'] * nn), lst([zero] * nn), '[]', '[]', cls='msm:expect')
+            ctx.add('rs.precomp', lst(['B'] * nn), lst([zero] * nn), lst([zero] * nn), lst(['B'] * nn), cls='msm:expect')
     seed0 = vals.rb(rng, 32)
     pk0 = ref.ed_public(seed0)
     msgs, sigs = [], []
@@ -179,6 +196,29 @@ def gen(ctx, n):
         docs.append(d + b'\0')
     for ln in (0, 1, 16, 48, 83, 200):
         docs.append(vals.rb(rng, ln))
+    # well-formed DER with every field length varied (truncation and byte corruption mostly produce malformed DER,
+    # which the DER reader refuses before the key code sees anything)
+    def der(tag, content):
+        n = len(content)
+        if n < 128:
+            return bytes([tag, n]) + content
+        nb = (n.bit_length() + 7) // 8
+        return bytes([tag, 0x80 | nb]) + n.to_bytes(nb, 'big') + content
+    oid_ed, oid_x, oid_other = bytes.fromhex('06032b6570'), bytes.fromhex('06032b656e'), bytes.fromhex('06092a864886f70d010101')
+    for ln in list(range(0, 41)) + [64, 127, 128, 255]:
+        seedish = vals.rb(rng, ln)
+        for inner in (der(0x04, seedish), seedish, der(0x04, seedish) + b'\0', der(0x30, seedish)):
+            for ver in (0, 1):
+                for alg in (der(0x30, oid_ed), der(0x30, oid_ed + b'\x05\x00')) + ((der(0x30, oid_x), der(0x30, oid_other)) if ln in (0, 31, 32, 33) else ()):
+                    body = der(0x02, bytes([ver])) + alg + der(0x04, inner)
+                    docs.append(der(0x30, body))
+                    if ver == 1 and ln in (0, 16, 31, 32, 33):
+                        for pl in (0, 1, 31, 32, 33):
+                            docs.append(der(0x30, body + der(0x81, b'\0' + vals.rb(rng, pl))))
+        for unused in (0, 7):
+            docs.append(der(0x30, der(0x30, oid_ed) + der(0x03, bytes([unused]) + seedish)))
+    docs.append(der(0x30, b''))
+    docs.append(der(0x30, der(0x02, b'\0')))
     import base64
     for d in docs:
         ctx.add('sig.pkcs8_der', hx(d), cls='pkcs8:der')
